@@ -205,18 +205,36 @@ func writeFacts(repo, out string) error {
 					if id, ok := lhs.(*ast.Ident); ok && isFresh(rhs, fresh) {
 						fresh[id.Name] = true
 					}
-					// `out := *o`: a shallow copy of the whole struct – every field not set afterwards is shared
-					if id, ok := lhs.(*ast.Ident); ok && id.Name == outVar && outVar != "" {
-						if st, ok := rhs.(*ast.StarExpr); ok {
-							if _, ok := st.X.(*ast.Ident); ok {
-								dflt = "shared"
+					// a copy of the whole struct – `out := *o`, `out := in`, `*out = *in`: every field not set
+					// afterwards is carried over by value (shared)
+					if outVar != "" {
+						lhsIsOut := false
+						if id, ok := lhs.(*ast.Ident); ok && id.Name == outVar {
+							lhsIsOut = true
+						}
+						if st, ok := lhs.(*ast.StarExpr); ok {
+							if id, ok := st.X.(*ast.Ident); ok && id.Name == outVar {
+								lhsIsOut = true
+							}
+						}
+						if lhsIsOut {
+							switch r := rhs.(type) {
+							case *ast.Ident:
+								if r.Name != "nil" {
+									dflt = "shared"
+								}
+							case *ast.StarExpr:
+								if _, ok := r.X.(*ast.Ident); ok {
+									dflt = "shared"
+								}
 							}
 						}
 					}
 					if sel, ok := lhs.(*ast.SelectorExpr); ok {
 						if id, ok := sel.X.(*ast.Ident); ok && id.Name == outVar && outVar != "" {
 							if strct == "object" && sel.Sel.Name == "value" {
-								continue // handled as payload cases
+								how["value"] = "payload" // decided per payload type: see payloadCases
+								continue
 							}
 							if isFresh(rhs, fresh) {
 								how[sel.Sel.Name] = "fresh"
@@ -342,7 +360,7 @@ func writeFacts(repo, out string) error {
 	var b strings.Builder
 	b.WriteString("/- REGENERATED by `ottoh-C17 --facts` from /repo's current sources on every run. Do not edit, do not commit. -/\n")
 	b.WriteString("namespace OttoVerif.C17.Gen\n\n")
-	b.WriteString("/-- (clone site, struct, field, Go type, field can hold a mutable reference, how the site sets it) -/\n")
+	b.WriteString("/-- (clone site, struct, field, Go type, field can hold a mutable reference, how the site sets it:\n    fresh = from a cloner call / c.runtime / a new container, shared = carried over by value, payload = object.value,\n    unset = left at the zero value) -/\n")
 	b.WriteString("def cloneFields : List (String × String × String × String × Bool × String) := [\n")
 	for i, f := range facts {
 		sep := ","
